@@ -20,6 +20,10 @@ def key(v, ev):
     return k
 
 
+def gen():
+    return vlib.generate(SPEC, "Gen_BinFmt", "Gen_BinFmt.cfg", os.path.join(vlib.GEN, "binfmt.ndjson"))
+
+
 def run():
     c = Check("C05")
     thorough = c.tier == "thorough"
@@ -30,26 +34,29 @@ def run():
     if thorough:
         c.mc(SPEC, "MC_BinLike", "MC_BinLike_idf_2x3.cfg", workers=4, timeout=1500)
         c.mc(SPEC, "MC_BinLike", "MC_BinLike_tnd_2x3.cfg", workers=4, timeout=1500)
+    g = gen()
     prefix = os.path.join(c.workdir, "trace")
     for f in glob.glob(prefix + "-*"):
         os.remove(f)
     nshards = 16 if thorough else 6
-    vlib.drive(["c05", "--out", prefix, "--shards", nshards, "--seed", c.seed, "--tier", c.tier], timeout=1500)
+    vlib.drive(["c05", "--out", prefix, "--shards", nshards, "--seed", c.seed, "--tier", c.tier, "--gen", os.path.join(vlib.GEN, "binfmt.ndjson")], timeout=1500)
     summary = json.load(open(prefix + "-summary.json"))
     shards = sorted(glob.glob(prefix + "-[0-9]*.ndjson"))
     c.validate(SPEC, "Trace_BinFmt", "Trace_BinFmt.cfg", shards, key, procs=6 if thorough else 4, xmx="3g")
+    if summary["counts"].get("rt-from-tlc-config", 0) != g["n"]:
+        raise ToolError(f"driver replayed {summary['counts'].get('rt-from-tlc-config')} of {g['n']} TLC-generated configurations")
     reg = lambda r: sum(int(x.get(r, 0)) for x in c.reports)
     c.sample_from(shards[0], 1)
     c.samples = [s if isinstance(s, str) else json.dumps(s)[:1500] for s in c.samples]
     c.extra.update({
         "round_trip_cases": reg("r4"), "resave_cases": reg("r5"), "round_trips_judged": reg("r6"), "resaves_judged": reg("r7"),
         "resaves_not_judged_save_or_reload_failed": reg("r8"), "cases_decoded_by_spec_decoders": reg("r9"),
-        "driver_counts": summary["counts"],
+        "driver_counts": summary["counts"], "tlc_generated_configurations": g["n"],
         "distinct_nontrivial": reg("r6") + reg("r7"),
     })
     c.rule = ("R1: for every picture <= 2x2 (thorough 2x3) cells over a 4-cell alphabet and every encoding the format documents allow (IDF: any mix of literal words and repeat triples with the "
               "escape word always escaped; Tundra: colour/position records wherever allowed) the decoders of BinLike.tla read the picture, palette and font back; XBin via MC_XBin. "
-              "R2/R3: seeded source pictures strictly inside each format's representable set (XBin blink/ice, 1-2 fonts of height 1..32, 6-bit palettes, compressed or not, widths 1..4096, heights 1..200; "
+              "R2/R3: one source picture per configuration enumerated by TLC from Gen_BinFmt (XBin: palette?/font?/512?/compress?/ice? x font heights 1/8/16/32 legal per HeaderLegal, sizes 1x1..80x25; BIN modes x widths 2/80/160/510; ADF heights 1/24/25/26/201; IDF widths 1/79/80 x heights 1/24/25/26/200 x compress; Tundra widths x colour counts) plus seeded source pictures strictly inside each format's representable set (XBin blink/ice, 1-2 fonts of height 1..32, 6-bit palettes, compressed or not, widths 1..4096, heights 1..200; "
               "BIN even widths 2..510 with SAUCE; ADF width 80; IDF widths 1..80; Tundra with SAUCE, 24-bit colours, no blink) are saved with lossles_output and reloaded; "
               "Trace_BinFmt judges SizeEq, CharEq (incl. font page), ColourEq (displayed RGB, blank/solid glyphs excepted, 6-bit reduction for 6-bit formats), BlinkEq, ModeEq, FontEq, PaletteEq; "
               "second half: own files and mutated files that still load are loaded, saved, loaded again and judged by the same relation. The spec decoders re-read the written bytes "
@@ -76,7 +83,8 @@ def replay(path):
     prefix = os.path.join(work, "trace")
     for f in glob.glob(prefix + "-*"):
         os.remove(f)
-    vlib.drive(["c05", "--out", prefix, "--shards", 1, "--seed", r.get("seed", 0), "--tier", r.get("tier", "quick"), "--only", ev["fmt"], "--index", ev.get("index", 0), "--no-resave", 1])
+    vlib.drive(["c05", "--out", prefix, "--shards", 1, "--seed", r.get("seed", 0), "--tier", r.get("tier", "quick"), "--only", ev["fmt"], "--index", ev.get("index", 0), "--no-resave", 1,
+                "--gen", os.path.join(vlib.GEN, "binfmt.ndjson")])
     res = vlib.validate_trace(SPEC, "Trace_BinFmt", "Trace_BinFmt.cfg", prefix + "-0.ndjson")
     for v in res["viol"]:
         print("VIOL", json.dumps(v)[:1200])
